@@ -4,7 +4,7 @@ import re
 from ..astutil import kids, strip, walk, callee_ref, render, loc, is_null_expr
 from ..frontend import AnalysisBroken
 from ..report import Report
-from ..vals import FuncCtx
+from ..vals import FuncCtx, assert_condition, is_assert_stmt
 from ..engines import region
 from .. import inv
 from . import common, regionrules, listrules
@@ -97,7 +97,8 @@ def rules(rep, m):
                         if mm:
                             # the tag's res field is set to this resource
                             for l2, r2_, k2, n2 in inv.stores(f):
-                                if cx.canon(l2) == mm.group(1) + "->res" and cx.canon(r2_) == obj:
+                                if cx.canon(l2) == mm.group(1) + "->res" and (cx.canon(r2_) == obj or
+                                                                               common.same_object(m, cx.canon(r2_), obj)):
                                     good = True
                 if not good:
                     rep.finding(r2, f.name, "install-without-tag", "%s installs a holder without recording the "
@@ -113,7 +114,10 @@ def rules(rep, m):
     for qn, want in (("cmb_resource_in_use", None), ("cmb_resource_available", None),
                      ("cmb_resource_held_by_process", None)):
         f = m.need(qn)
-        fields = {x["name"] for x in walk(f.body) if x["kind"] == "MemberExpr" and inv.member_record(x) == "cmb_resource"}
+        # reads inside assertions (the cookie test through &rp->core instead of a cast) do not enter the answer
+        in_assert = {id(y) for s_ in walk(f.body) if assert_condition(s_) is not None or is_assert_stmt(s_) for y in walk(s_)}
+        fields = {x["name"] for x in walk(f.body) if x["kind"] == "MemberExpr" and inv.member_record(x) == "cmb_resource"
+                  and id(x) not in in_assert}
         r3.instance("%s reads %s" % (qn, sorted(fields)))
         if fields != {"holder"}:
             rep.finding(r3, qn, "query-fields", "%s reads %s, not the holder field alone" % (qn, sorted(fields)),
